@@ -254,19 +254,22 @@ func checkC19(c *Ctx) *report.Result {
 	}
 
 	// ---- S-seq: the sequencer routine = the Audio method the per-clock routine calls under (ticks % 8192) == 0
-	var seqFn *ssa.Function
-	var seqField string
+	var seqFn, clockFn *ssa.Function
+	var seqField, clockField string
 	for _, f := range c.methodsOfObject(aObj) {
 		for _, sc := range callsIn(f.Blocks) {
 			if sc.Callee == nil || recvTypeKey(sc.Callee) != "audio.Audio" {
 				continue
 			}
 			g := c.guardsOf(sc.At.Block())
-			if len(g) == 1 && regexp.MustCompile(`^\(\(\w+\.\w+ % 8192\) == 0\)$`).MatchString(g[0]) {
-				if seqFn != nil && seqFn != sc.Callee {
-					r.Ob("S-seq", false, "sequencer call", c.pos(sc.At), "more than one routine is called every 8192 clocks")
+			if len(g) == 1 {
+				if mm := regexp.MustCompile(`^\(\(\w+\.(\w+) % 8192\) == 0\)$`).FindStringSubmatch(g[0]); mm != nil {
+					if seqFn != nil && seqFn != sc.Callee {
+						r.Ob("S-seq", false, "sequencer call", c.pos(sc.At), "more than one routine is called every 8192 clocks")
+					}
+					seqFn = sc.Callee
+					clockFn, clockField = f, "."+mm[1]
 				}
-				seqFn = sc.Callee
 			}
 		}
 	}
@@ -352,6 +355,90 @@ func checkC19(c *Ctx) *report.Result {
 		}
 		r.Ob("S-seq", len(env) == 3 && chs[1] && chs[2] && chs[4] && disjoint, "step 7 clocks the envelopes of channels 1, 2 and 4 only", firstPos(c, seqFn), render(env))
 		r.Sample(map[string]interface{}{"sequencer_table": []string{render(stepCalls[0]), render(stepCalls[1]), render(stepCalls[2]), render(stepCalls[3]), render(stepCalls[4]), render(stepCalls[5]), render(stepCalls[6]), render(stepCalls[7])}})
+	}
+	// every store to the step counter outside the sequencer routine and the NR52 write keeps the phase: it replaces
+	// a known value by one congruent to it modulo 8 (the table's period), e.g. a wrap from 512 to 0
+	{
+		h52 := map[string]bool{}
+		for _, f := range c.evalDecoder(true, 0xFF26, 0xFF26, nil, nil).Direct {
+			h52[fnName(f)] = true
+		}
+		seqOwn := map[string]bool{fnName(seqFn): true}
+		viol := map[string]string{}
+		n := 0
+		c.evalAllEntries(ai.Hooks{
+			Store: func(st *ai.State, at ssa.Instruction, p *ai.Ptr, keys []ai.CellKey, v ai.Value, _ bool) {
+				for _, key := range keys {
+					isSeq := false
+					for _, a := range c.objectsOfType(aObj.TypeKey) {
+						isSeq = isSeq || (key.Obj == a.ID && key.Path == seqField)
+					}
+					if !isSeq || c.onStack(seqOwn) || c.onStack(h52) || fnName(outerFn(at.Parent())) == fnName(clockFn) {
+						continue // the per-clock routine's own stores are decided by the phase table below
+					}
+					n++
+					var old *ai.Int
+					for _, a := range c.objectsOfType(aObj.TypeKey) {
+						if key.Obj == a.ID {
+							old = c.cellInt(st, a, seqField)
+						}
+					}
+					ov, oc := constOf(old)
+					nv, nc := constOf(v)
+					if !(oc && nc && (ov-nv)%8 == 0) {
+						viol[fmt.Sprintf("sequencer step counter stored by %s: %s -> %s", fnName(outerFn(at.Parent())), ai.ValueString(old), ai.ValueString(v))] = c.pos(at)
+					}
+				}
+			},
+		}, func(*world.Entry, *ai.State) {})
+		for k, pos := range viol {
+			r.Ob("S-seq", false, k, pos, "outside the sequencer routine and the power-on write the step counter may only be wrapped by a multiple of 8; anything else shifts the 256 Hz length clock against emulated time")
+		}
+		r.Ob("S-seq", true, "stores to the sequencer step counter outside the sequencer routine examined", "", fmt.Sprintf("%d stores", n))
+	}
+	// phase table of the per-clock routine: for every step value 0-511 and clock-counter values around each constant the
+	// routine compares with, the step counter moves by +1 (mod 8) exactly when the sequencer routine is called and by
+	// 0 (mod 8) otherwise, and stays inside 0-511.  The 256 Hz length clock is the even steps, so anything else
+	// stretches or shortens a length period.
+	if clockFn != nil && ai.LeafTypeAt(aObj.T, clockField) != nil {
+		var bad []string
+		n := 0
+		for _, tk := range []int64{1, 95, 8191, 8192, 8193, 4194303, 4194304, 4194305} {
+			for sv := int64(0); sv < 512; sv++ {
+				n++
+				called := false
+				st := it.StateOn(c.W.Generic)
+				st.SetCell(aObj, seqField, ai.NewConstInt(c.widthOf(aObj, seqField), false, sv))
+				st.SetCell(aObj, clockField, ai.NewConstInt(c.widthOf(aObj, clockField), false, tk))
+				it.Hooks = ai.Hooks{Call: func(_ *ai.State, _ ssa.Instruction, callee *ssa.Function, _ []ai.Value) {
+					if callee == seqFn {
+						called = true
+					}
+				}}
+				restore := c.cutDecoder(nil)
+				_, post := it.CallFunction(st, clockFn, []ai.Value{ptrTo(aObj)}, nil)
+				restore()
+				it.Hooks = ai.Hooks{}
+				nv, isc := constOf(c.cellInt(post, aObj, seqField))
+				want := sv % 8
+				if called {
+					want = (sv + 1) % 8
+				}
+				if !(post != nil && isc && nv >= 0 && nv < 512 && nv%8 == want) && len(bad) < 4 {
+					bad = append(bad, fmt.Sprintf("clock counter %d, step %d: step afterwards %s, sequencer called %v (documented step %d mod 8)", tk, sv, ai.ValueString(c.cellInt(post, aObj, seqField)), called, want))
+				} else if !(post != nil && isc && nv >= 0 && nv < 512 && nv%8 == want) {
+					bad = append(bad, "")
+				}
+			}
+		}
+		detail := fmt.Sprint(bad)
+		if len(bad) > 4 {
+			detail = fmt.Sprintf("%v ... %d cases in all", bad[:4], len(bad))
+		}
+		r.Ob("S-seq", len(bad) == 0, "per-clock routine keeps the sequencer phase (512 step values x 8 clock-counter values)", firstPos(c, clockFn), detail)
+		r.Instances["S-seq"] += n
+	} else {
+		r.Fail("unresolved", "S-seq", "per-clock routine / clock counter", "", "not identified")
 	}
 	// register writes while powered do not store the step counter
 	for _, iv := range c.elementaryIntervals() {
